@@ -26,8 +26,12 @@ namespace au {
 // Check that this particular Magnitude won't cause this specific value to overflow its type.
 template <typename Rep, typename... BPs>
 constexpr bool can_scale_without_overflow(Magnitude<BPs...> m, Rep value) {
-    // Scales that shrink don't cause overflow.
-    if (get_value<double>(m) <= 1.0) {
+    // Scales that shrink don't cause overflow.  (A magnitude too large even for `double` is certainly
+    // not one of them; asking via `get_value_result` keeps the question well formed in that case.)
+    constexpr auto mag_value_as_double = detail::get_value_result<double>(Magnitude<BPs...>{});
+    if (mag_value_as_double.outcome == detail::MagRepresentationOutcome::OK &&
+        mag_value_as_double.value <= 1.0) {
+        (void)m;
         (void)value;
         return true;
     } else {
